@@ -58,10 +58,10 @@ type Case struct {
 	Pre   Layout `json:"pre"`
 	Posts []Post `json:"posts"`
 	NVK   int    `json:"nvk"`
-	Tiny  bool   `json:"tiny"` // BaseTableSize = 1: every key of a compaction output starts a new table
+	Tiny  bool   `json:"tiny"` // tiny BaseTableSize: every key of a compaction output starts a new table
 }
 
-var keyNames = []string{"", "ka", "kb", "kc", "kd", "ke"}
+var keyNames = []string{"", "ka", "kb", "kc", "kd", "ke", "kf", "kg", "kh", "ki"}
 
 func keyOf(k int) []byte { return []byte(keyNames[k]) }
 
@@ -86,8 +86,10 @@ func metaOf(kind string) byte {
 	return 0
 }
 
-func kindOf(meta byte) string {
+func kindOf(meta byte, expiresAt uint64) string {
 	switch {
+	case expiresAt > 0:
+		return "exp" // the harness only writes expiry times in the past
 	case meta&badger.VerifBitDelete != 0:
 		return "del"
 	case meta&badger.VerifBitDiscard != 0:
@@ -176,7 +178,11 @@ func toVerif(es []Ent, big bool) []badger.VerifEntry {
 		if e.Kind == "del" {
 			v = nil
 		}
-		out = append(out, badger.VerifEntry{Key: keyOf(e.K), Version: e.Ts, Meta: metaOf(e.Kind), Value: v})
+		var exp uint64
+		if e.Kind == "exp" {
+			exp = 1 // expired long ago: invisible to reads, treated like a deletion marker by compaction
+		}
+		out = append(out, badger.VerifEntry{Key: keyOf(e.K), Version: e.Ts, Meta: metaOf(e.Kind), Value: v, ExpiresAt: exp})
 	}
 	return out
 }
@@ -187,7 +193,7 @@ func realLayout(db *badger.DB, nlevels int) (Layout, string) {
 		if e.Internal {
 			continue
 		}
-		l.Mt = append(l.Mt, Ent{K: kIndex(e.Key), Ts: e.Version, Kind: kindOf(e.Meta)})
+		l.Mt = append(l.Mt, Ent{K: kIndex(e.Key), Ts: e.Version, Kind: kindOf(e.Meta, e.ExpiresAt)})
 	}
 	tabs := db.VerifTables()
 	l.Lv = make([][]Tab, nlevels-1)
@@ -205,7 +211,7 @@ func realLayout(db *badger.DB, nlevels int) (Layout, string) {
 				if e.Internal {
 					continue
 				}
-				tab.Ents = append(tab.Ents, Ent{K: kIndex(e.Key), Ts: e.Version, Kind: kindOf(e.Meta)})
+				tab.Ents = append(tab.Ents, Ent{K: kIndex(e.Key), Ts: e.Version, Kind: kindOf(e.Meta, e.ExpiresAt)})
 			}
 			if lvl == 0 {
 				l.L0 = append(l.L0, tab)
@@ -260,7 +266,11 @@ func buildPre(c Case, inmem bool) (*badger.DB, badger.Options, string, func(), *
 	o.MemTableSize = 64 << 10
 	o.NumVersionsToKeep = c.NVK
 	if c.Tiny {
-		o.BaseTableSize = 1
+		// an empty table builder already estimates 20 bytes; with a capacity of 22 (0.95 * 24) every
+		// entry after the first one of a table finds the capacity reached, so every key of the output
+		// starts a new table (a capacity below 20 would make subcompact spin on empty builders)
+		o.BaseTableSize = 24
+		o.TableSizeMultiplier = 1
 		o.Compression = options.None
 	}
 	o.NumLevelZeroTables = 100
